@@ -183,7 +183,14 @@ def run(ctx):
         clustered = ctx.rng.random() < 0.5
         ns = ctx.rng.randint(1, 2)
         names, cl, muts, point_of, cluster_of = inputs(3, clustered)
-        jobs.append({"n_points": 3, "n_samples": ns, "names": names, "clusters": cl, "chains": {0: [(-1 - j, sp, ("plain", 0)) for j, sp in enumerate(pool)]}, "cmds": [("cons", 0.5, "counts"), ("cons", 0.5, "joint-likelihood")], "outlier_prob": 0.1})
+        ents = [(-1 - j, sp, ("plain", 0)) for j, sp in enumerate(pool)]
+        job = {"n_points": 3, "n_samples": ns, "names": names, "clusters": cl, "chains": {0: ents}, "cmds": [("cons", 0.5, "counts"), ("cons", 0.5, "joint-likelihood")], "outlier_prob": 0.1}
+        if ctx.rng.random() < 0.4:
+            # several chains, stored in the order in which they finished (not chain 0 first): per-run information such as the
+            # cluster table must reach the commands whichever chain was written first
+            job["chains"] = {0: ents[:1], 1: ents[1:]}
+            job["order"] = [1, 0]
+        jobs.append(job)
         meta.append({"kind": "multi", "spec": tuple(pool), "n": 3, "ns": ns, "clustered": clustered, "muts": muts, "point_of": point_of, "cluster_of": cluster_of, "names": names, "cl": cl})
     # multi-entry traces for the map (both modes) and topology commands: the same topology visited several times under
     # different node numberings and with different scores, several topologies per trace, realistic (thinned) "iter" fields
@@ -197,7 +204,12 @@ def run(ctx):
         clustered = ctx.rng.random() < 0.5
         ns = ctx.rng.randint(1, 2)
         names, cl, muts, point_of, cluster_of = inputs(4, clustered)
-        jobs.append({"n_points": 4, "n_samples": ns, "names": names, "clusters": cl, "chains": {0: entries}, "cmds": [("map", "joint-likelihood"), ("map", "frequency"), ("topo", "all")], "outlier_prob": 0.1})
+        job = {"n_points": 4, "n_samples": ns, "names": names, "clusters": cl, "chains": {0: entries}, "cmds": [("map", "joint-likelihood"), ("map", "frequency"), ("topo", "all")], "outlier_prob": 0.1}
+        if ctx.rng.random() < 0.4:
+            cut = ctx.rng.randint(1, len(entries) - 1)
+            job["chains"] = {0: entries[:cut], 1: entries[cut:]}
+            job["order"] = ctx.rng.choice([[1, 0], [0, 1]])
+        jobs.append(job)
         meta.append({"kind": "multi-map", "spec": tuple(sp for _, sp, _ in entries), "n": 4, "ns": ns, "clustered": clustered, "muts": muts, "point_of": point_of, "cluster_of": cluster_of, "names": names, "cl": cl})
     ctx.log("%d trace files" % len(jobs))
     outs = tf.run_jobs(jobs, workers=4)
